@@ -1071,5 +1071,5 @@ MANIFEST = {
              "chunk tiling and read-until-complete loops decided on finite interface models (complete around packet boundaries), frame field/CRC agreement with a dominating CRC guard, "
              "bounded waits. Histories and fault sequences as such are not enumerated.",
     "note": "Trusted: the evaluator, device-layer timeout contract. 14 trust-provisioning style methods use a response-type guard and are reported, not armed.",
-    "technique": "static analysis: control-dependence (status gate) analysis, flag/tag agreement, abstract evaluation of chunking/read loops on finite models, must-check on the CRC guard, whole-function models of the mboot and SDP data phases against scripted model devices, status re-arm typestate on guarded paths, whole-function models of every public McuBoot operation against a scripted command layer (negative result and no data phase on a failing command), of the serial frame reader/writer against a model UART (every single-byte corruption / truncation / NAK / abort raises) and of the USB-HID report reader/writer, USB chunk model with a failing data phase",
+    "technique": "static analysis: control-dependence (status gate) analysis, flag/tag agreement, abstract evaluation of chunking/read loops on finite models, must-check on the CRC guard, whole-function models of the mboot and SDP data phases against scripted model devices, status re-arm typestate on guarded paths, whole-function models of every public McuBoot operation against a scripted command layer (negative result and no data phase on a failing command), of the serial frame reader/writer against a model UART (every single-byte corruption / truncation / NAK / abort raises) and of the USB-HID report reader/writer, USB chunk model with a failing data phase, parse_cmd_response and the response constructors interpreted on model packets of every registered tag",
 }
